@@ -667,7 +667,7 @@ pub fn run(ctx: &RunCtx) -> i32 {
         min_cells: 60,
         exhaustive: false,
     };
-    let n = ctx.tier.sz(4000, 60_000);
+    let n = ctx.tier.sz(6000, 150_000);
     let total = par_run(ctx.workers, n, |j, r| {
         let rt = new_runtime_real();
         let mut g = Rng::new(derive_seed(ctx.seed, "C18", j));
